@@ -820,6 +820,13 @@ impl Error
 		}
 	}
 
+	/// Verification hook: expose the primary location of this error.
+	#[cfg(penne_verif)]
+	pub fn verif_location(&self) -> &Location
+	{
+		self.location()
+	}
+
 	#[cfg_attr(coverage, no_coverage)]
 	#[cfg(not(tarpaulin_include))]
 	pub fn build_report(
